@@ -8,10 +8,10 @@
 #define VP_HAVOC_GHOSTS()                                                      \
 	do {                                                                       \
 		SC_HAVOC_MAP(sock_ids); SC_HAVOC_MAP(ctx_ids); SC_HAVOC_MORE_MAPS(); \
-		id_reg_num = nondet_int();                                             \
-		g_k = nondet_size_t(); g_j = nondet_size_t(); g_kk = nondet_u64(); g_kv = nondet_ptr(); g_ks = nondet_u32(); g_ents = nondet_ptr(); \
-		g_found = nondet_size_t(); g_slot = nondet_size_t(); g_u32 = nondet_u32(); g_u64 = nondet_u64(); g_reg = nondet_ptr(); \
-		VP_CNT(g_alloc_ok); VP_CNT(g_free_calls);                              \
+		g_k = nondet_size_t(); g_j = nondet_size_t(); \
+		VP_CNT(g_idg_calls); g_idg_map = nondet_ptr(); g_idg_id = nondet_u64(); g_u32 = nondet_u32(); g_u64 = nondet_u64(); g_reg = nondet_ptr(); \
+		VP_CNT(g_alloc_ok); VP_CNT(g_free_calls); VP_CNT(g_ida_calls); g_ida_map = nondet_ptr(); g_ida_val = nondet_ptr(); g_ida_issued = nondet_u32(); g_ida_fail = nondet_bool(); g_ida_raw = nondet_u32(); \
+		VP_CNT(g_idr_calls); g_idr_map = nondet_ptr(); g_idr_id = nondet_u64(); VP_CNT(g_idr_at_free); g_idr_found = nondet_bool();                              \
 		VP_CNT(g_wake_calls); g_wake_cv = nondet_ptr(); VP_CNT(g_reap_calls); g_reap_list = nondet_ptr(); g_reap_item = nondet_ptr(); \
 		VP_CNT(g_cinit_calls); g_cinit_data = nondet_ptr(); g_cinit_sdata = nondet_ptr(); VP_CNT(g_cfini_calls); g_cfini_data = nondet_ptr(); VP_CNT(g_cfini_at_free); \
 		VP_CNT(g_sinit_calls); g_sinit_data = nondet_ptr(); g_sinit_sock = nondet_ptr(); VP_CNT(g_sfini_calls); g_sfini_data = nondet_ptr(); \
